@@ -2,6 +2,7 @@
 //! the monitors of one property. Links no walrus code.
 
 mod basic;
+mod exec;
 mod report;
 mod structural;
 
@@ -65,6 +66,7 @@ fn main() {
     let logs = args_all(&args, "--log");
     let out = arg(&args, "--out").expect("--out");
     let replay_dir = arg(&args, "--replay-dir").unwrap_or_else(|| "/verif/replays".into());
+    let seed: u64 = arg(&args, "--seed").and_then(|s| s.parse().ok()).unwrap_or(1);
     let mut rep = Report::new(&prop, &replay_dir);
     let logs2 = args_all(&args, "--log2");
     for (li, l) in logs.iter().enumerate() {
@@ -104,6 +106,7 @@ fn main() {
                 "C12" => basic::c12(c, &mut rep),
                 "C20" => basic::c20(c, &mut rep),
                 "C03" | "C04" => structural::run(c, &mut rep, &prop),
+                "C01" => exec::c01(c, &mut rep, seed),
                 _ => rep.harness_error(&format!("no judge for {}", prop)),
             }
         }
